@@ -24,8 +24,45 @@ def literal_braces(s):
     return s.count("{") - s.count("}")
 
 
+def _reduce_items(t):
+    """item(tuple(a, b), i) -> a / b, bottom up"""
+    if not isinstance(t, tuple):
+        return t
+    t = tuple(_reduce_items(x) for x in t)
+    if t and t[0] in ('item', 'sub') and len(t) == 3 and isinstance(t[1], tuple) and t[1] and t[1][0] in ('tuple', 'list'):
+        i = t[2][1] if isinstance(t[2], tuple) and t[2][:1] == ('const',) else t[2]
+        if isinstance(i, int) and -len(t[1][1]) <= i < len(t[1][1]):
+            return t[1][1][i]
+    return t
+
+
+def _expand_join(t):
+    """`sep.join(f(x) for x in (a, b))` over a literal table is `f(a) sep f(b)`; None when it is not that"""
+    if not (t[0] == 'mcall' and t[2] == 'join' and t[1][0] == 'const' and isinstance(t[1][1], str) and len(t[3]) == 1):
+        return None
+    c = t[3][0]
+    if c[0] in ('tuple', 'list'):
+        items = list(c[1])
+    elif c[0] == 'comp' and len(c[3]) == 1 and not c[3][0][2] and c[3][0][1][0] in ('tuple', 'list') \
+            and len(c[3][0][1][1]) <= 4 and not isinstance(c[2], list):
+        key, source, _conds = c[3][0]
+        elem = T.mk(('elem', source, key))
+        items = [T.mk(_reduce_items(T.replace(c[2], elem, it))) for it in source[1]]
+    else:
+        return None
+    parts = []
+    for i, it in enumerate(items):
+        if i:
+            parts.append(T.mk(('const', t[1][1])))
+        parts.append(it)
+    return T.mk(('fmt', tuple(parts)))
+
+
 def piece_of(t):
     """(template with {} holes, hole terms) of a string-valued term"""
+    j = _expand_join(t)
+    if j is not None:
+        return piece_of(j)
     if t[0] == 'const' and isinstance(t[1], str):
         return t[1].replace('{', '{{').replace('}', '}}') if False else t[1], (), [t[1]]
     if t[0] == 'fmt':
@@ -34,7 +71,7 @@ def piece_of(t):
             if part[0] == 'const' and isinstance(part[1], str):
                 tpl += part[1]
                 lits.append(part[1])
-            elif part[0] == 'fmt' or (part[0] == 'binop' and part[1] == 'Add'):
+            elif part[0] == 'fmt' or (part[0] == 'binop' and part[1] == 'Add') or _expand_join(part) is not None:
                 st, sa, sl = piece_of(part)
                 tpl += st
                 args += list(sa)
@@ -261,13 +298,48 @@ def dot(ctx, rep, r1, r2, r3, r4, r5):
     rep.need(r2, len(fmts), 4, "pieces appended by the emitter")
     # R20.1 (b): holes of the emitter are ids, cluster names, styles or the nested body
     safe_m = ('repr_id', 'dot_cluster_name', 'dot_style')
+    def hole(a, depth=0):
+        """True: made of ids, cluster names, quoted styles and literal text only; False: raw text reaches the
+        output; None: cannot tell"""
+        if depth > 8:
+            return None
+        k = a[0]
+        if k == 'const':
+            return True
+        if k == 'mcall' and a[2] in safe_m:
+            return True
+        if k == 'var' or (k == 'mcall' and a[2] == em.name):
+            return True          # the style parameter / the nested body
+        if k == 'mcall' and a[2] == 'join' and a[1][0] == 'const' and len(a[3]) == 1:
+            return hole(a[3][0], depth + 1)
+        subs = None
+        if k == 'fmt':
+            subs = [x for x in a[1] if isinstance(x, tuple)]
+        elif k in ('tuple', 'list'):
+            subs = list(a[1])
+        elif k == 'comp':
+            subs = [a[2]] if not isinstance(a[2], list) else list(a[2])
+        elif k == 'elem':
+            subs = [a[1]]
+        elif k in ('item', 'sub'):
+            subs = [a[1]]
+        elif k == 'call' and a[1] in ('str', 'format', 'list', 'tuple', 'sorted'):
+            subs = list(a[2])
+        if subs is not None:
+            rs = [hole(x, depth + 1) for x in subs]
+            if any(r is False for r in rs):
+                return False
+            return None if any(r is None for r in rs) else True
+        if k in ('attr', 'mcall', 'call'):
+            return False
+        return None
     for e in fmts:
         for a in e.data['args']:
-            ok = False
-            if a[0] == 'mcall' and a[2] in safe_m:
-                ok = True
-            elif a[0] == 'var' or (a[0] == 'mcall' and a[2] == em.name):
-                ok = True          # the style parameter / the nested body
+            ok = hole(a)
+            if ok is None:
+                rep.error(r1, "%s: cannot tell what `%s` puts in the output (%s)"
+                          % (e.where, src(stmt_of(e.node))[:80], T.show(a, 3)[:100]))
+                continue
             rep.check(ok, r1, "%s hole filled with an id, a cluster name or a quoted style" % e.where, fn,
                       "`%s` formats %s" % (src(stmt_of(e.node))[:80], T.show(a, 4)),
                       "raw text (e.g. a label) reaches the DOT output without going through the quoter", trace(e.st))
